@@ -26,7 +26,8 @@ func ValidateExtendedDaemonSetSpec(spec *ExtendedDaemonSetSpec) error {
 			return ErrInvalidAutoFailRestarts
 		}
 
-		if *canary.AutoFail.Enabled && canary.AutoFail.CanaryTimeout != nil && canary.AutoFail.CanaryTimeout.Duration <= canary.Duration.Duration {
+		// canary.Duration is only defaulted with validationMode=auto
+		if *canary.AutoFail.Enabled && canary.AutoFail.CanaryTimeout != nil && canary.Duration != nil && canary.AutoFail.CanaryTimeout.Duration <= canary.Duration.Duration {
 			return ErrInvalidCanaryTimeout
 		}
 
